@@ -153,10 +153,14 @@ def run(tier="quick", only_key=None):
                         special = []
                         base_decide = it.ctx.decide
 
+                        regions = []
+
                         def rec(cond, node, file, fn):
                             sv = _special_value(cond)
                             if sv is not None:
                                 special.append(sv + (file, getattr(node, "lineno", None)))
+                            elif catalog.param_region(cond) is not None:
+                                regions.append((cond, file, getattr(node, "lineno", None)))
                             return base_decide(cond, node, file, fn)
 
                         it.ctx.decide = rec
@@ -180,6 +184,32 @@ def run(tier="quick", only_key=None):
                                 ck.fail("special-value", skey, f"{sfile}:{sline}", f"{pub}({pname}={cval}) takes a Python-level special-case branch that builds a different stepper ({', '.join(d2)} differ) than the general branch evaluated at {pname} = {cval}: the eager result and the result under jit / filter_vmap (traced {pname}) disagree")
                             else:
                                 ck.ok("special-value", skey)
+                        for rcond, rfile, rline in regions[:2]:
+                            # a Python branch on the value RANGE of a float parameter: eager runs take it by value, a
+                            # traced parameter cannot (at best an isinstance guard sends it down one side): both
+                            # sides have to build the same stepper
+                            def forced(cond, node, file, fn, _k=rcond):
+                                if cond == _k:
+                                    return True
+                                if cond == 1 - _k:
+                                    return False
+                                return base_decide(cond, node, file, fn)
+
+                            it.ctx.decide = forced
+                            try:
+                                other = catalog.stepper_forms(it, cls, D, 0, **fl)
+                            finally:
+                                it.ctx.decide = base_decide
+                            from vf.harness import _same
+
+                            x = (other["C"], other["L"], None if other["N"] is None else list(other["N"].data), other["integrator"])
+                            y = (eager["C"], eager["L"], None if eager["N"] is None else list(eager["N"].data), eager["integrator"])
+                            d3 = [n_ for n_, u_, v_ in zip(("num_channels", "linear symbol", "nonlinear term", "integrator"), x, y) if not ((u_ is None and v_ is None) or _same(u_, v_))]
+                            rkey = f"{cls.qual}#value-range#{rcond},D={D},{fl}"
+                            if d3:
+                                ck.fail("special-value", rkey, f"{rfile}:{rline}", f"{pub}: the Python branch on {rcond} builds different steppers on its two sides ({', '.join(d3)} differ); an eager construction follows the value, a construction under jit / filter_vmap cannot: the results disagree on one side")
+                            else:
+                                ck.ok("special-value", rkey)
                         it.ctx.events[:] = evs  # only the traced run's events count
                         a = (traced["C"], _p(traced["dt"]), traced["L"], None if traced["N"] is None else list(traced["N"].data), traced["integrator"])
                         b = (eager["C"], _p(eager["dt"]), eager["L"], None if eager["N"] is None else list(eager["N"].data), eager["integrator"])
